@@ -33,6 +33,8 @@ pub enum Op {
     Load { clock: i64, jump: Option<(File, i64)> },
     Read { clock: i64 },
     Save { clock: i64 },
+    /// save under the digest-prefixed name (what `Repository::cache` does for consistent snapshots)
+    SaveDigest { clock: i64 },
 }
 
 #[derive(Clone, Debug, Serialize, Deserialize)]
@@ -126,7 +128,7 @@ impl Check for C04 {
         "C04"
     }
     fn rule(&self) -> String {
-        "expiry of final root/timestamp/snapshot/targets at T0 +/- {1s,1min,1day,1y,30y} (never 0), 0..2 stepping-stone roots (optionally expired), enforcement Safe/Unsafe, 1..5 operations (load / read_target / save_target) on one datastore, clock set per operation (forward and backward) and optionally jumped forward when a chosen file is requested inside load; non-trivial = some operation ran with at least one of the four documents expired or with the clock behind a previously recorded time; distinct = distinct canonical trace".into()
+        "expiry of final root/timestamp/snapshot/targets at T0 +/- {1s,1min,1day,1y,30y} (never 0), 0..2 stepping-stone roots (optionally expired), enforcement Safe/Unsafe, 1..5 operations (load / read_target / save_target under the plain or the digest-prefixed name) on one datastore, clock set per operation (forward and backward) and optionally jumped forward when a chosen file is requested inside load; non-trivial = some operation ran with at least one of the four documents expired or with the clock behind a previously recorded time; distinct = distinct canonical trace".into()
     }
     fn assumptions(&self) -> Vec<String> {
         vec![
@@ -174,7 +176,7 @@ impl Check for C04 {
                 *r.pick(&cands)
             };
             last = clock;
-            let op = match if i == 0 { 0 } else { r.below(3) } {
+            let op = match if i == 0 { 0 } else { r.below(4) } {
                 0 => {
                     let jump = if r.chance(1, 3) {
                         let to = *r.pick(&cands);
@@ -192,7 +194,8 @@ impl Check for C04 {
                     Op::Load { clock, jump }
                 }
                 1 => Op::Read { clock },
-                _ => Op::Save { clock },
+                2 => Op::Save { clock },
+                _ => Op::SaveDigest { clock },
             };
             ops.push(op);
         }
@@ -251,7 +254,7 @@ impl Check for C04 {
         for (oi, op) in sc.ops.iter().enumerate() {
             let (start, jump) = match op {
                 Op::Load { clock, jump } => (*clock, *jump),
-                Op::Read { clock } | Op::Save { clock } => (*clock, None),
+                Op::Read { clock } | Op::Save { clock } | Op::SaveDigest { clock } => (*clock, None),
             };
             if let Some(p) = prev_end {
                 if start > p {
@@ -327,11 +330,12 @@ impl Check for C04 {
                         }
                     }),
                 },
-                Op::Save { .. } => match &repo {
+                Op::Save { .. } | Op::SaveDigest { .. } => match &repo {
                     None => Ok("skipped".into()),
                     Some(rp) => block_on(async {
                         let tn = TargetName::new("f.bin").unwrap();
-                        match rp.save_target(&tn, &outdir, Prefix::None).await {
+                        let prefix = if matches!(op, Op::SaveDigest { .. }) { Prefix::Digest } else { Prefix::None };
+                        match rp.save_target(&tn, &outdir, prefix).await {
                             Ok(()) => Ok("saved".into()),
                             Err(e) => Err((classify(&e), variant(&e))),
                         }
